@@ -6,3 +6,11 @@
 (define-fun spec.floorMod ((x Int) (y Int)) Int (- x (* y (spec.floorDivMath x y))))
 (define-fun spec.min ((a Int) (b Int)) Int (ite (< a b) a b))
 (define-fun spec.max ((a Int) (b Int)) Int (ite (< a b) b a))
+; float <-> integer conversions (same names as in bv.smt2; integer results as mathematical integers)
+(define-fun spec.two63 () Float64 ((_ to_fp 11 53) RNE 9223372036854775808.0))
+(define-fun spec.floatIsInt ((f Float64)) Bool
+  (and (not (fp.isNaN f)) (not (fp.isInfinite f)) (fp.lt f spec.two63) (fp.geq f (fp.neg spec.two63))
+       (fp.eq (fp.roundToIntegral RTZ f) f)))
+(define-fun spec.floatToInt ((f Float64)) Int
+  (let ((b ((_ fp.to_sbv 64) RTZ f)))
+    (ite (bvslt b #x0000000000000000) (- (bv2nat b) 18446744073709551616) (bv2nat b))))
